@@ -116,6 +116,63 @@ class VerInterp(Interp):
         return Interp.binop(self, op, l, r, n)
 
 
+class ConcreteVerInterp(Interp):
+    """fallback when a gate leaves the comparison-only fragment (arithmetic on components, versions built on the fly):
+    the source is interpreted on concrete int triples.  It can only refute (a concrete pair with the wrong verdict is a
+    counterexample for the real code, int overflow aside - the grid keeps away from overflowing sums); it proves nothing."""
+
+    def __init__(self, prog, fieldidx, vals):
+        Interp.__init__(self, prog, inline=lambda fn: fn.cls == CLS)
+        self.fieldidx = fieldidx
+        self.vals = vals
+
+    def _triple(self, base):
+        if isinstance(base, tuple) and base and base[0] == 'obj' and base[1] in self.vals:
+            return self.vals[base[1]]
+        x = base
+        while isinstance(x, tuple) and len(x) == 2 and x[0] == 'list' and isinstance(x[1], tuple) and x[1] and x[1][0] == 'list':
+            x = x[1]
+        if isinstance(x, tuple) and x and x[0] == 'list' and len(x) == 4 and all(isinstance(v, int) and not isinstance(v, bool) for v in x[1:]):
+            return tuple(x[1:])
+        return None
+
+    def member(self, base, name, n, env):
+        t = self._triple(base)
+        if t is not None and name in self.fieldidx:
+            return t[self.fieldidx[name]]
+        raise Unsupported('member %s of %r at %s' % (name, base, n.loc()))
+
+
+def concrete_grid():
+    big = 2 ** 31 - 1
+    out = []
+    for a in ((1, 2, 0), (5, 7, 9), (0, 0, 0)):
+        comps = [sorted(set([a[i] + d for d in (-2, -1, 0, 1, 2)] + [-1, 0, 1, -(2 ** 31) + 2, big - 2])) for i in range(3)]
+        for b in itertools.product(*comps):
+            out.append((a, b))
+    return out
+
+
+def refute_concretely(prog, idx, fn, spec, only_signs=None):
+    """first concrete (A, B) on the grid for which the interpreted source disagrees with the specification"""
+    sgn = lambda x: (x > 0) - (x < 0)
+    for a, b in concrete_grid():
+        signs = tuple(sgn(a[i] - b[i]) for i in range(3))
+        if only_signs is not None and signs != only_signs:
+            continue
+        it = ConcreteVerInterp(prog, idx, {'A': a, 'B': b})
+        try:
+            res = it.enumerate(fn, this=('obj', 'A'), args=[('obj', 'B')])
+        except Unsupported:
+            return None
+        if len(res) != 1 or res[0][1][0] != 'ret':
+            return None
+        got = res[0][1][1]
+        if got is not spec(signs):
+            return a, b, got, spec(signs)
+    return None
+
+
 def field_indices(prog, rule, rep):
     """vx/vy/vz -> component index, from the vector constructor (v[i] stored into field)"""
     ctor = [f for f in prog.fns(CLS + '::FormatVersion') if 'std::vector<int>' in f.sig]
@@ -194,6 +251,20 @@ def run(prog, rep):
                 rule.bad('%s::%s|signs=%s' % (CLS, name, ','.join('%+d' % s for s in signs)), rep.where(ci.node), fn.q,
                          '%s(A,B) compares different components with each other (%s): no lexicographic / component-wise specification does that, e.g. the '
                          'patch component of A is tested against the minor component of B' % (name, ci.node.src(40)))
+                continue
+            except Unsupported as un:
+                # outside the comparison-only fragment: no proof possible; look for a concrete counterexample instead
+                w = refute_concretely(prog, idx, fn, spec[name], only_signs=signs)
+                if w is None:
+                    w0 = refute_concretely(prog, idx, fn, spec[name])
+                    if w0 is None:
+                        raise AnalysisBroken('R-VER: %s leaves the comparison-only fragment (%s) and no concrete counterexample was found on the grid: neither proved nor refuted' % (fn.q, un))
+                    continue   # reported under the sign vector of its witness
+                n_eval += 1
+                a, b, got, wanted = w
+                rule.bad('%s::%s|signs=%s' % (CLS, name, ','.join('%+d' % s for s in signs)), rep.where(fn), fn.q,
+                         '%s is not decided by component comparisons alone (%s); interpreted on concrete versions: library/receiver A=%s, argument B=%s gives %r, '
+                         'the specification says %s' % (name, str(un)[:120], '.'.join(map(str, a)), '.'.join(map(str, b)), got, wanted))
                 continue
             if len(res) != 1:
                 raise AnalysisBroken('%s is not a function of the sign vector alone' % fn.q)
